@@ -11,7 +11,9 @@ constructors: exception class, phase "init".  The three drivers of one chain `pr
           (fillseq = the same through an explicit FillSeq(*pre, acc), acc.compute() and Sequence(*post))
   split = list(Split([tuple(chain)], bufsize).run(iter(flow)))   for every bufsize in {1..n+1, 1000, None}
 """
+import functools
 import itertools
+import operator
 import warnings
 
 from harness.common import exc_name
@@ -45,8 +47,14 @@ THEOREMS = [
     "Lena.C05.three_drivers_agree_no_slice_inputs",
     "Lena.C05.split_branches_independent",
     "Lena.C05.split_branch_eq_seq",
+    # ... among sibling branches of any type (sequence, source, fill_request), in any order
+    "Lena.C05.split_mixed_branch_independent",
+    "Lena.C05.split_mixed_branch_eq_seq",
+    "Lena.C05.split_mixed_source",
+    "Lena.C05.splitRunM_fc_only",
     # from the real constructors to the chain, end to end on the driver's functions
     "Lena.C05.preKind_converts",
+    "Lena.C05.callable_converts",
     "Lena.C05.construct_chain",
     "Lena.C05.constructors_only_lenaTypeError",
     "Lena.C05.spec_preKind",
@@ -77,6 +85,9 @@ AUX_THEOREMS = [
     "Lena.C05.neg_slice_fill_into",
     "Lena.C05.adapter_accepts_iff",
     "Lena.C05.adapter_preserves",
+    "Lena.C05.fillInto_accepts_every_callable",
+    "Lena.C05.run_accepts_every_callable",
+    "Lena.C05.call_accepts_every_callable",
     "Lena.C05.call_accepts_iff",
     "Lena.C05.call_rejects",
     "Lena.C05.call_preserves",
@@ -97,8 +108,10 @@ TRUSTED = [
     "Lean 4.33.0 kernel; axioms limited to propext, Classical.choice, Quot.sound (audited by #print axioms on every run)",
     "hand transcription of FillSeq.__init__ (_Fill chaining), FillComputeSeq.__init__/compute, FillInto.fill_into/"
     "_run_fill_into, Run._call_run/_fc_run, Filter.fill_into/run, Slice.fill_into/run (Lena.C17), RunIf.run, "
-    "Sequence.__init__/run, the fill_compute part of Split.run (LenaStopFill handling) and the five adapter constructors "
-    "into LenaModel/Model/C05.lean, validated by this correspondence check",
+    "Sequence.__init__/run, Split.run (all four branch types: processBufM/finalM/splitLoopM; the fill_compute part "
+    "with its LenaStopFill handling also as processBuf/splitLoop), _get_seq_with_type, Source.__call__, the fill/request "
+    "use of FillRequestSeq and the five adapter constructors into LenaModel/Model/C05.lean, validated by this "
+    "correspondence check",
     "Python generator semantics as modelled by streams (values yielded + terminating exception), itertools.islice as "
     "transcribed (validated likewise)",
     "JSON line protocol encoders (harness/props/c05.py, drivers/C05.lean), including the representation of None by quot 0 0",
@@ -115,6 +128,13 @@ ASSUMPTIONS = [
     "value alphabet of the flows: ints, strings, lists, tuples, (data, context) pairs with string-keyed contexts, None "
     "(model: the otherwise unused value quot 0 0); no bool / float INPUT values (the accumulators' arithmetic on them is not "
     "modelled; Mean's float result is compared as float(n)/float(d) computed from the model's exact pair)",
+    "a callable is whatever callable(el) accepts: every function of the vocabulary is also handed over as a lambda, a "
+    "functools.partial (positional / keyword / of a staticmethod), a bound method, an instance with __call__ (also one that is false / has len 0), a function "
+    "with further optional / variadic / keyword parameters, a method-wrapper, a class whose __new__ returns the result "
+    "(key `form`: the model sees the same function, the form is invisible to it by construction: Caps.callable); "
+    "callables implemented in C (int, abs, len, max, min, operator.neg, itemgetter(0), list, tuple, sorted, sum, "
+    "methodcaller, attrgetter, a bound str.join; several have no introspectable signature) are compared between the "
+    "real drivers and in the adapter table only (their semantics is Python's, not modelled)",
     "callables of the vocabulary are pure functions of the value (they may raise, return None, 0, [], ()); selectors are "
     "pure and may return non-bool truthy/falsy values; Variable updates the context of the value in place (the harness "
     "hands fresh copies to every driver; aliasing/deep copies of Split buffers and copy_buf are C04's, here only exercised: "
@@ -136,7 +156,18 @@ ASSUMPTIONS = [
     "never generated in a chain (the adapter table shows the model gives its fill_into no meaning)",
     "a Split used through its own fill/compute (dual interface) is compared with Split.run only when no branch stops "
     "(theorem split_fill_eq_run; notes/C05_observation_split_fill.md)",
-    "FillRequest, FillRequestSeq and Split branches of type fill_request/source/sequence belong to C16 and C03; FillSeq "
+    "'a branch of a Split': the other branches may be of any type (op msplit: sequence, source, fill_request siblings "
+    "before / after / around the chain, every bufsize). The statement checked is about the chain only: the values it "
+    "yields inside the Split (picked out by a tag: a final Variable('B<i>') writes the branch index into the context; "
+    "untagged chains: their results must occur in the output in order) are those of the FillComputeSeq filled alone "
+    "and of the Sequence; what the siblings themselves yield is C03's / C16's (modelled here, splitRunM, and compared, "
+    "but not demanded by the oracle); the statement is made when no branch raises when driven alone (then Split.run "
+    "must not raise either). Model: sequence branches and the post-processing of fill_request branches must be "
+    "stateless (a Stage), the fill/request element is the synthetic class (real FillRequest(Sum/StoreFilled, reset=..) "
+    "siblings: oracle only); values are immutable in the model, i.e. every branch sees the buffer as read — which is "
+    "what copy_buf=True promises; a sibling that changes contexts in place (Variable) makes a missing deep copy "
+    "visible in the chain's results",
+    "FillRequest and FillRequestSeq as such belong to C16; FillSeq "
     "filled value by value has no model of its own: fillRun stands for FillComputeSeq and for FillSeq+compute+Sequence(post), "
     "both real variants are compared with it",
     "sentence 1 as written is false of the code (look-ahead value of Slice.fill_into: theorem "
@@ -159,7 +190,14 @@ RULE = ("exhaustive: every pre-processing sequence of length <= 2 over represent
         "on the real element kinds; every element x 6 flows x {input ends normally, input raises} for the two faces "
         "of one element (op stage); FillSeq.__init__ on all pairs of 14 element kinds; Split.__init__ (not a list, "
         "bufsize 0/-1); the sibling pattern for Split.run (tuple / prebuilt FillComputeSeq / bare element branches) and "
-        "for Split.fill+compute. sampled (seeded): chains pre^{0..3} acc post^{0..3} with random elements (also "
+        "for Split.fill+compute; every form of a callable (12 forms) and 14 C callables as pre-/post-processing "
+        "element, inside a RunIf, in FillSeq, as a Split branch and in the adapter table; a Split with a sibling of "
+        "every type (sequence with/without a context-changing Variable, End, Slice; source from a list / a generator "
+        "function; fill_request synthetic / real FillRequest) before, after and on both sides of three chains, "
+        "tagged and untagged, every bufsize, flow with contexts and empty flow. "
+        "sampled (seeded): Splits of 2-4 branches of random types (at least one chain) in random order, random "
+        "bufsize, tags, prebuilt / bare branches, copy_buf=False for branches that change nothing; "
+        "chains pre^{0..3} acc post^{0..3} with random elements in random callable forms (also "
         "elements outside the property's kinds: constructor errors), flows of length 0..8 of ints, (data, context) "
         "pairs and mixed values; Splits of 2-4 fill_compute branches with early-stopping siblings, run and filled; "
         "single elements on random flows. Non-trivial: a chain with at least one pre- or post-processing element and a "
@@ -295,6 +333,104 @@ def make_callable(f):
         return g(v)
     on_data.__name__ = "call_" + f
     return on_data
+
+
+# ---- the forms a callable can take -----------------------------------------------------------
+# The property speaks of "callables": whatever `callable(el)` accepts.  The same function of the vocabulary is handed
+# over as a def, a lambda, a functools.partial (positional / keyword), a bound method, an instance with __call__,
+# a function with further optional / variadic parameters, a method-wrapper, a class whose __new__ returns the result.
+
+CALL_FORMS = ["def", "lambda", "partial", "partialkw", "method", "callobj", "defaults", "varargs", "kwargs", "wrapper",
+              "newclass", "staticm", "falsyobj", "emptyobj"]
+
+
+def _apply2(f, v):
+    return f(v)
+
+
+def _applykw(v, f=None):
+    return f(v)
+
+
+class _Holder(object):
+    def __init__(self, f):
+        self._f = f
+
+    def apply(self, v):
+        return self._f(v)
+
+    @staticmethod
+    def sapply(f, v):
+        return f(v)
+
+
+class _CallObj(object):
+    def __init__(self, f):
+        self._f = f
+
+    def __call__(self, v):
+        return self._f(v)
+
+
+class _FalsyCallObj(_CallObj):
+    """a callable object that is false in a boolean context"""
+    def __bool__(self):
+        return False
+
+
+class _EmptyCallObj(_CallObj):
+    """a callable object with len() == 0 (false in a boolean context, too)"""
+    def __len__(self):
+        return 0
+
+
+def with_form(base, form):
+    """the callable `base` (a function of one value) in another of the forms Python has for callables"""
+    if form in (None, "def"):
+        return base
+    if form == "lambda":
+        return lambda v: base(v)
+    if form == "partial":
+        return functools.partial(_apply2, base)
+    if form == "partialkw":
+        return functools.partial(_applykw, f=base)
+    if form == "method":
+        return _Holder(base).apply
+    if form == "staticm":
+        return functools.partial(_Holder.sapply, base)
+    if form == "callobj":
+        return _CallObj(base)
+    if form == "falsyobj":
+        return _FalsyCallObj(base)
+    if form == "emptyobj":
+        return _EmptyCallObj(base)
+    if form == "defaults":
+        def with_defaults(v, scale=1, *, opt=None):
+            return base(v)
+        return with_defaults
+    if form == "varargs":
+        def with_varargs(*args):
+            return base(*args)
+        return with_varargs
+    if form == "kwargs":
+        def with_kwargs(v, **kw):
+            return base(v)
+        return with_kwargs
+    if form == "wrapper":
+        return base.__call__                # a method-wrapper (C level) around the Python function
+    if form == "newclass":
+        class ViaNew(object):
+            def __new__(cls, v):
+                return base(v)
+        return ViaNew
+    raise ValueError(form)
+
+
+# callables implemented in C (many have no introspectable signature): the semantics is Python's own
+# (none whose result depends on an object's address: str/repr of an iterator)
+BUILTINS = {"int": int, "abs": abs, "len": len, "max": max, "min": min, "neg": operator.neg,
+            "item0": operator.itemgetter(0), "list": list, "tuple": tuple, "sorted": sorted, "sum": sum,
+            "mlen": operator.methodcaller("__len__"), "areal": operator.attrgetter("real"), "join": "-".join}
 
 
 def _pred_value(p, v):
@@ -441,7 +577,9 @@ def build(spec):
     import lena.variables
     k = spec["k"]
     if k == "call":
-        return make_callable(spec["f"])
+        return with_form(make_callable(spec["f"]), spec.get("form"))
+    if k == "bcall":
+        return BUILTINS[spec["b"]]
     if k == "var":
         return lena.variables.Variable(spec["name"], getter=ON_DATA[spec["f"]])
     if k == "filter":
@@ -490,6 +628,11 @@ def build(spec):
             return lena.core.FillCompute(syn_class({"my_fill": 2, "my_compute": 2}, False)(),
                                          fill="my_fill", compute="my_compute")
         raise ValueError(a)
+    if k == "freq":
+        # a real FillRequest adapter around an accumulator (a fill/request element without compute)
+        inner = lena.math.Sum() if spec["a"] == "sum" else lena.flow.StoreFilled()
+        return lena.core.FillRequest(inner, bufsize=spec.get("bufsize", 1), reset=spec.get("reset", False),
+                                     buffer_input=True)
     if k == "syn":
         return syn_class(spec["attrs"], spec["call"], spec.get("nodata", False))()
     if k == "dup":
@@ -513,7 +656,7 @@ def build(spec):
         return lena.flow.Filter(lambda v: v[0] if _has_context(v) else v)
     if k == "const":
         c = spec["v"]
-        return lambda v: dec(c)
+        return with_form(lambda v: dec(c), spec.get("form"))
     if k == "junk":
         return JUNK[spec.get("v", "int")]
     if k == "setctx":
@@ -561,7 +704,7 @@ def run_convertible(el):
 # ----------------------------------------------------------------------------------------
 # independent reference: the flow processed eagerly, stage by stage, in plain Python (no lena code)
 
-PRE_KINDS = ("call", "var", "filter", "slice", "runif", "dup", "filtert", "const")
+PRE_KINDS = ("call", "var", "filter", "slice", "runif", "dup", "filtert", "const", "bcall")
 
 
 class _RefSkip(Exception):
@@ -576,6 +719,10 @@ def ref_gen(spec, it):
         whole = spec["f"] in ("ident", "wrap")
         for v in it:
             yield g(v) if whole or not _has_context(v) else (g(v[0]), v[1])
+    elif k == "bcall":
+        g = BUILTINS[spec["b"]]             # the user's callable itself (C code of Python, not of lena)
+        for v in it:
+            yield g(v)
     elif k == "var":
         g = ON_DATA[spec["f"]]
         for v in it:
@@ -645,7 +792,7 @@ def ref_chain(specs, xs):
 def stateless(spec):
     """the element keeps no state between two calls of its run (twin of Lean `Spec.stateless`)"""
     k = spec["k"]
-    if k in ("count", "acc", "syn"):
+    if k in ("count", "acc", "syn", "freq"):
         return False
     if k == "runif":
         return stateless_list(spec["inner"])
@@ -670,8 +817,8 @@ def oracle_only(specs):
             return True
         if x["k"] == "acc" and x["a"] in ("dsum", "vmc", "hist", "vec", "nested", "fcnamed"):
             return True
-        if x["k"] == "wrap":
-            return True
+        if x["k"] in ("wrap", "bcall", "freq"):
+            return True         # explicit adapter objects; C callables (their semantics is Python's, not modelled)
     return False
 
 
@@ -679,7 +826,7 @@ def pre_in_scope(pre):
     """the property's pre-processing kinds: callable, Variable, Filter, non-negative Slice, RunIf"""
     for s in pre:
         if s["k"] == "wrap" and s["ad"] in ("Call", "CallNamed"):
-            if s["ad"] == "Call" and s["el"]["k"] not in ("call", "var", "const"):
+            if s["ad"] == "Call" and s["el"]["k"] not in ("call", "var", "const", "bcall"):
                 return False
             continue                    # Call(callable) / Call(obj, call=name) are callables
         if s["k"] not in PRE_KINDS:
@@ -823,6 +970,82 @@ def drive_split(branches, bufsize, flow, islist=True, form="tuple", flowform="it
     if err:
         return err
     return observe(lambda: sp.run(make_flow(flow, flowform)))
+
+
+# ---- a Split whose branches are of any type ------------------------------------------------------
+# branch = {"ty": "chain" | "seq" | "freq" | "source", "els": [spec..], ("vals": [v..], "srcform": "list"|"genfun"),
+#           ("form": "tuple" | "prebuilt" | "bare")}
+#   chain : pre* acc post*  -> Split makes a FillComputeSeq (type "fill_compute")
+#   seq   : run/call elements only -> a Sequence, run(buf) for every buffer (type "sequence")
+#   freq  : contains a fill/request element and no fill/compute element -> FillRequestSeq (type "fill_request")
+#   source: Source(first, *els) where first is the iterable `vals` (or a function returning an iterator over it)
+# A branch may end with a *tag*: Variable("B<i>", ident) puts {"variable": {"name": "B<i>"}} into the context of every
+# value the branch yields, so that the values of one branch can be picked out of the output of the Split.
+
+def tag_spec(i):
+    return {"k": "var", "name": "B%d" % i, "f": "ident"}
+
+
+def tag_of(ev):
+    """the branch tag of an encoded output value (None if it has none)"""
+    if isinstance(ev, dict) and "t" in ev and len(ev["t"]) == 2 and isinstance(ev["t"][1], dict) and "d" in ev["t"][1]:
+        var = ev["t"][1]["d"].get("variable")
+        if isinstance(var, dict) and "d" in var:
+            nm = var["d"].get("name")
+            if isinstance(nm, str) and nm[:1] == "B" and nm[1:].isdigit():
+                return int(nm[1:])
+    return None
+
+
+def is_tagged(branch, i):
+    return bool(branch["els"]) and branch["els"][-1] == tag_spec(i)
+
+
+def build_branch(b, objs, bufsize):
+    import lena.core
+    ty, form = b["ty"], b.get("form", "tuple")
+    if ty == "source":
+        vals = dec(b["vals"])
+        first = vals if b.get("srcform", "list") == "list" else (lambda: iter(vals))
+        return lena.core.Source(first, *objs)
+    if form == "prebuilt":
+        if ty == "chain":
+            return lena.core.FillComputeSeq(*objs)
+        if ty == "seq":
+            return lena.core.Sequence(*objs)
+    if form == "bare" and len(objs) == 1:
+        return objs[0]
+    return tuple(objs)
+
+
+def drive_msplit(branches, bufsize, flow, flowform="iter", copy_buf=True):
+    import lena.core
+
+    def make():
+        all_objs = [[build(s) for s in b["els"]] for b in branches]
+        kw = {} if bufsize == "default" else {"bufsize": bufsize}
+        if not copy_buf:
+            kw["copy_buf"] = False
+        return lena.core.Split([build_branch(b, o, bufsize) for b, o in zip(branches, all_objs)], **kw)
+    sp, err = _construct(make)
+    if err:
+        return err
+    return observe(lambda: sp.run(make_flow(flow, flowform)))
+
+
+def branch_type(b):
+    """the type Split gives the branch, by the documented rule on the public interfaces of its elements"""
+    if b["ty"] == "source":
+        return "source"
+    try:
+        objs = [build(s) for s in b["els"]]
+    except Exception:
+        return None
+    if any(is_fc(o) for o in objs):
+        return "chain"
+    if any(attr_state(o, "fill") == 2 and attr_state(o, "request") == 2 for o in objs):
+        return "freq"
+    return "seq"
 
 
 def failing_iter(flow, term):
@@ -1154,6 +1377,21 @@ def run_impl(case):
                 "fill": [drive_fill(b, flow) for b in bs],
                 "safe": [(lambda sp: ref_safe(sp[0], flow) if sp else None)(split_point(b)) for b in bs],
                 "facts": [chain_facts(b) for b in bs]}
+    if op == "msplit":
+        bs, flow = case["branches"], case["flow"]
+        res = {"split": drive_msplit(bs, case["bufsize"], flow, case.get("flowform", "iter"), case.get("copy_buf", True)),
+               "br": []}
+        for b in bs:
+            if b["ty"] == "chain":
+                sp = split_point(b["els"])
+                res["br"].append({"seq": drive_seq(b["els"], flow), "fill": drive_fill(b["els"], flow),
+                                  "safe": ref_safe(sp[0], flow) if sp else None, "facts": chain_facts(b["els"])})
+            else:
+                # the sibling alone in a Split of its own (fresh objects): does it construct, does it raise?
+                alone = drive_msplit([b], case["bufsize"], flow)
+                res["br"].append({"alone": {k: alone.get(k) for k in ("e", "phase", "t") if k in alone}})
+        res["tyok"] = all(branch_type(b) == b["ty"] for b in bs)
+        return res
     if op == "adapter":
         return adapter_observe(case)
     raise ValueError(op)
@@ -1168,6 +1406,8 @@ def _case_specs(case):
         return case["args"]
     if op in ("split", "splitfc"):
         return [x for b in case["branches"] for x in b]
+    if op == "msplit":
+        return [x for b in case["branches"] for x in b["els"]]
     if op == "stage":
         return [case["el"]]
     return []
@@ -1186,6 +1426,11 @@ def model_requests(case):
                  "islist": case.get("islist", True)}]
     if op == "splitfc":
         return [{"op": "splitfc", "branches": case["branches"], "flow": case["flow"]}]
+    if op == "msplit":
+        if not msplit_modelled(case):
+            return []
+        return [{"op": "msplit", "bufsize": case["bufsize"], "flow": case["flow"],
+                 "branches": [{"ty": b["ty"], "els": b["els"], "vals": b.get("vals", [])} for b in case["branches"]]}]
     if op == "fillseq_init":
         return [{"op": "fillseq_init", "args": case["args"]}]
     if op == "stage":
@@ -1202,6 +1447,27 @@ def model_requests(case):
                  "given_callable": case.get("given", "func") == "func",
                  "el": case["el"] if case["el"]["k"] not in ("split", "sequence", "list", "genfun") else None}]
     raise ValueError(op)
+
+
+SYN_FREQ = {"k": "syn", "attrs": {"fill": 2, "request": 2}, "call": False}
+
+
+def msplit_modelled(case):
+    """the model expresses the case: a sequence branch (run once per buffer) and the post-processing part of a
+    fill_request branch (run once per request) must keep no state between two runs; the only fill/request element of
+    the model's vocabulary is the synthetic class with `fill` and `request`"""
+    for b in case["branches"]:
+        els = b["els"]
+        if b["ty"] == "seq" and not stateless_list(els):
+            return False
+        if b["ty"] == "freq":
+            ix = [i for i, e in enumerate(els) if e["k"] == "syn"]
+            if len(ix) != 1 or {k: v for k, v in els[ix[0]].items() if k != "nodata"} != SYN_FREQ \
+                    or els[ix[0]].get("nodata") or not stateless_list(els[ix[0] + 1:]):
+                return False
+            if any(e["k"] in ("count", "acc") for e in els[:ix[0]]):
+                return False
+    return True
 
 
 def _den_norm(j):
@@ -1297,6 +1563,19 @@ def compare(case, res, replies):
                 proj = [model_value(p[1]) for p in m["r"] if p[0] == i]
                 if "r" in f and f["t"] is None and proj != f["r"]:
                     return f"branch {i}: model projection {proj} vs FillComputeSeq alone {f['r']}"
+        return None
+    if op == "msplit":
+        sp = res["split"]
+        if "e" in m or "e" in sp:
+            return None if m == sp else f"impl {sp} vs model {m}"
+        mv = {"r": [model_value(p[1]) for p in m["r"]], "t": m["t"]}
+        if mv != sp:
+            return f"impl {sp} vs model {mv}"
+        # the model's own branch index of every value against the tag the real value carries
+        for p, ev in zip(m["r"], sp["r"]):
+            t = tag_of(ev)
+            if t is not None and t < len(case["branches"]) and is_tagged(case["branches"][t], t) and t != p[0]:
+                return f"the model attributes {ev} to branch {p[0]}, its tag says branch {t}"
         return None
     if op == "adapter":
         ref = adapter_reference(case, res["flags"])
@@ -1502,6 +1781,50 @@ def oracle(case, res):
             if facts[i].get("seq_ok") and spb and spb[1]["k"] == "acc" and pre_in_scope(pre) and (safe is True or not _has_top_slice(pre)) and s != f:
                 return f"branch {i}: Sequence.run gives {s} but filled it gives {f}; {what}"
         return None
+    if op == "msplit":
+        bs = case["branches"]
+        what = f"branches {bs} bufsize {case['bufsize']} flow {case['flow']}"
+        sp = res["split"]
+        chains = [i for i, b in enumerate(bs) if b["ty"] == "chain"]
+        if not res.get("tyok"):
+            return None                # the generator's label of a branch is not the type Split gives it: no statement
+        if any(r.get("alone", {}).get("phase") == "init" for r in res["br"]):
+            return None                # a sibling that cannot be made a branch: not the chain's business
+        if any(res["br"][i]["facts"]["ctor"] for i in chains):
+            # an element constructor of a chain raises (all elements are built before the Split)
+            return None if sp.get("phase") == "init" else \
+                f"an element constructor of a chain raises but Split gave {sp}; {what}"
+        if not all(res["br"][i]["facts"].get("has_fc") and res["br"][i]["facts"].get("fill_ok") for i in chains):
+            return None if sp == {"e": "LenaTypeError", "phase": "init"} else \
+                f"a chain that cannot be converted must give LenaTypeError at construction, got {sp}; {what}"
+        if "e" in sp:
+            return f"every branch can be constructed alone but Split raised {sp} at construction; {what}"
+        for i, r in enumerate(res["br"]):
+            if "fill" in r and r["fill"].get("t") is not None:
+                return None            # a branch that raises ends the whole generator: no per-branch statement
+            if "alone" in r and r["alone"].get("t") is not None:
+                return None
+        if sp["t"] is not None:
+            return f"no branch raises when driven alone, but Split.run raised {sp['t']} after {sp['r']}; {what}"
+        for i in chains:
+            r, b = res["br"][i], bs[i]
+            f = r["fill"]["r"]
+            if is_tagged(b, i):
+                proj = [v for v in sp["r"] if tag_of(v) == i]
+                if proj != f:
+                    return (f"branch {i} (the chain {b['els']}) yields {proj} inside the Split but {f} as a "
+                            f"FillComputeSeq filled alone; Split.run gave {sp['r']}; {what}")
+            else:
+                it = iter(sp["r"])
+                if not all(any(v == w for w in it) for v in f):
+                    return (f"the results {f} of branch {i} (the chain {b['els']}) filled alone are not among the "
+                            f"output {sp['r']} of the Split in this order; {what}")
+            spb = split_point(b["els"])
+            pre = spb[0] if spb else []
+            if r["facts"].get("seq_ok") and spb and spb[1]["k"] == "acc" and pre_in_scope(pre) and \
+                    (r["safe"] is True or not _has_top_slice(pre)) and r["seq"] != r["fill"]:
+                return f"branch {i}: Sequence.run gives {r['seq']} but filled it gives {r['fill']}; {what}"
+        return None
     if op == "adapter":
         exp = adapter_reference(case, res["flags"])
         what = f"{case['adapter']}({case['el']}, name={case.get('name')}, name2={case.get('name2')}) flags {res['flags']}"
@@ -1572,7 +1895,7 @@ def gen_value(rng, kind):
     if r < 0.8:
         return {"t": [rng.choice(INTS), {"d": gen_ctx(rng)}]}
     if r < 0.84:
-        return rng.choice(["s", "tt", ""])
+        return rng.choice(["s", "tt", "", "12", "-3"])
     if r < 0.87:
         return {"none": True}
     if r < 0.92:
@@ -1610,8 +1933,10 @@ def gen_inner(rng, depth):
             out.append(rng.choice([{"k": "count", "name": "n"}, {"k": "acc", "a": "sum"},
                                    {"k": "acc", "a": "store", "group": False}, {"k": "acc", "a": "count", "name": "c"}]))
             continue
-        if r < 0.4:
-            out.append({"k": "call", "f": rng.choice(FNS)})
+        if r < 0.36:
+            out.append(with_rand_form(rng, {"k": "call", "f": rng.choice(FNS)}, 0.3))
+        elif r < 0.4:
+            out.append({"k": "bcall", "b": rng.choice(BCALLS)})
         elif r < 0.5:
             out.append({"k": "var", "name": rng.choice(["x", "y"]), "f": rng.choice(["inc", "neg", "ident", "mod3"])})
         elif r < 0.65:
@@ -1635,8 +1960,10 @@ def gen_pre_el(rng, in_scope=True):
         return rng.choice([{"k": "reverse"}, {"k": "end"}, {"k": "junk", "v": rng.choice(list(JUNK))}, {"k": "setctx"},
                            {"k": "slice", "args": rng.choice(NEG_SLICES)}, {"k": "slice", "args": rng.choice(BAD_SLICES)},
                            gen_syn(rng)])
-    if r < 0.30:
-        return {"k": "call", "f": rng.choice(FNS)}
+    if r < 0.26:
+        return with_rand_form(rng, {"k": "call", "f": rng.choice(FNS)})
+    if r < 0.32:
+        return {"k": "bcall", "b": rng.choice(BCALLS)}
     if r < 0.42:
         return {"k": "var", "name": rng.choice(["x", "y"]), "f": rng.choice(["inc", "neg", "ident", "mod3"])}
     if r < 0.60:
@@ -1646,7 +1973,7 @@ def gen_pre_el(rng, in_scope=True):
     if r < 0.79:
         return {"k": "filtert", "q": rng.choice(["odd", "data"])}
     if r < 0.82:
-        return {"k": "const", "v": rng.choice(CONSTS)}
+        return with_rand_form(rng, {"k": "const", "v": rng.choice(CONSTS)})
     if r < 0.85:
         return {"k": "dup"}
     if r < 0.87:
@@ -1677,8 +2004,10 @@ def gen_post_el(rng, st, in_scope=True):
     r = rng.random()
     if not in_scope and r < 0.08:
         return rng.choice([{"k": "junk", "v": "int"}, {"k": "setctx"}, gen_syn(rng)])
+    if r < 0.21:
+        return with_rand_form(rng, {"k": "call", "f": rng.choice(FNS)})
     if r < 0.25:
-        return {"k": "call", "f": rng.choice(FNS)}
+        return {"k": "bcall", "b": rng.choice(BCALLS)}
     if r < 0.33:
         return {"k": "var", "name": rng.choice(["x", "y"]), "f": rng.choice(["inc", "neg", "ident", "mod3"])}
     if r < 0.45:
@@ -1769,6 +2098,8 @@ def adapter_cases():
             {"k": "acc", "a": "sum"}, {"k": "acc", "a": "mean"}, {"k": "acc", "a": "store", "group": True},
             {"k": "acc", "a": "count", "name": "n"}, {"k": "reverse"}, {"k": "end"}, {"k": "split"}, {"k": "sequence"},
             {"k": "list"}, {"k": "genfun"}, {"k": "junk", "v": "int"}, {"k": "junk", "v": "none"}, {"k": "setctx"}]
+    # every form of a callable; callables implemented in C
+    real += [{"k": "call", "f": "inc", "form": form} for form in CALL_FORMS[1:]] + [{"k": "bcall", "b": b} for b in sorted(BUILTINS)]
     for name in ("run", "missing", "fill", "my"):
         for given in ("func", "str", "int"):
             cases.append({"op": "adapter", "adapter": "Run", "name": name, "given": given,
@@ -1809,6 +2140,132 @@ def gen_split_case(rng, in_scope=True):
         else:
             branches.append(gen_chain(rng, in_scope, maxpre=2, maxpost=1))
     return {"op": "split", "branches": branches, "bufsize": rng.choice(bufsizes_for(len(flow))), "flow": flow}
+
+
+def rand_form(rng, p=0.5):
+    return rng.choice(CALL_FORMS[1:]) if rng.random() < p else None
+
+
+def with_rand_form(rng, e, p=0.5):
+    f = rand_form(rng, p)
+    return dict(e, form=f) if f else e
+
+
+BCALLS = sorted(BUILTINS)
+
+
+def gen_seq_el(rng):
+    """an element of a branch of type "sequence" / of the tail of a Source: run/call elements without fill/compute"""
+    r = rng.random()
+    if r < 0.22:
+        return with_rand_form(rng, {"k": "call", "f": rng.choice(FNS)})
+    if r < 0.42:
+        return {"k": "var", "name": rng.choice(["x", "y"]), "f": rng.choice(["inc", "neg", "ident", "mod3"])}
+    if r < 0.54:
+        return {"k": "filter", "p": rng.choice(PREDS)}
+    if r < 0.66:
+        return {"k": "slice", "args": rng.choice(NONNEG_SLICES + NEG_SLICES[:3])}
+    if r < 0.72:
+        return {"k": "reverse"}
+    if r < 0.77:
+        return {"k": "end"}
+    if r < 0.81:
+        return {"k": "dup"}
+    if r < 0.85:
+        return with_rand_form(rng, {"k": "const", "v": rng.choice(CONSTS)})
+    if r < 0.90:
+        return {"k": "bcall", "b": rng.choice(BCALLS)}
+    if r < 0.93:
+        # an accumulator hidden behind Run: a run element that yields also for an empty flow, and keeps state
+        return {"k": "wrap", "ad": "Run", "el": rng.choice([{"k": "acc", "a": "sum"}, {"k": "acc", "a": "store", "group": False}])}
+    return gen_runif(rng)
+
+
+FREQ_ELS = [SYN_FREQ, SYN_FREQ, {"k": "freq", "a": "sum", "reset": True, "bufsize": 1},
+            {"k": "freq", "a": "sum", "reset": False, "bufsize": 2}, {"k": "freq", "a": "store", "reset": False, "bufsize": 1}]
+
+
+def gen_branch(rng, ty, in_scope=True):
+    if ty == "chain":
+        if rng.random() < 0.35:
+            b = [{"k": "slice", "args": rng.choice([[0], [1], [2], [3], [1, 3], [0, 4, 2]])}]
+            if rng.random() < 0.4:
+                b.insert(rng.choice([0, 1]), gen_pre_el(rng))
+            els = b + [dict(rng.choice(ACCS[:1] + ACCS[2:]))]
+        else:
+            els = gen_chain(rng, in_scope, maxpre=2, maxpost=1)
+        return {"ty": "chain", "els": els}
+    if ty == "seq":
+        return {"ty": "seq", "els": [gen_seq_el(rng) for _ in range(rng.choice([0, 1, 1, 2, 3]))]}
+    if ty == "source":
+        return {"ty": "source", "vals": [gen_value(rng, rng.choice(["ints", "pairs", "mixed"])) for _ in range(rng.choice([0, 1, 2, 3]))],
+                "srcform": rng.choice(["list", "genfun"]), "els": [gen_seq_el(rng) for _ in range(rng.choice([0, 0, 1, 2]))]}
+    pre = [gen_pre_el(rng)] if rng.random() < 0.4 else []
+    post = [gen_seq_el(rng)] if rng.random() < 0.4 else []
+    return {"ty": "freq", "els": pre + [dict(rng.choice(FREQ_ELS))] + post}
+
+
+def gen_msplit_case(rng, in_scope=True):
+    """a Split with at least one chain pre* acc post* and sibling branches of any type, in any order"""
+    nb = rng.choice([2, 2, 3, 3, 4])
+    tys = [rng.choice(["chain", "chain", "seq", "seq", "seq", "source", "source", "freq"]) for _ in range(nb)]
+    if "chain" not in tys:
+        tys[rng.randrange(nb)] = "chain"
+    flow = gen_flow(rng)
+    bs = [gen_branch(rng, ty, in_scope) for ty in tys]
+    case = {"op": "msplit", "branches": bs, "bufsize": rng.choice(bufsizes_for(len(flow))), "flow": flow}
+    if rng.random() < 0.12 and no_mutation([b["els"] for b in bs]):
+        case["copy_buf"] = False        # the branches see the same objects: no tags (a tag writes into the context)
+    else:
+        for i, b in enumerate(bs):
+            if rng.random() < 0.85:
+                b["els"] = b["els"] + [tag_spec(i)]
+    for b in bs:
+        r = rng.random()
+        if b["ty"] in ("chain", "seq"):
+            if r < 0.12:
+                b["form"] = "prebuilt"
+            elif r < 0.3 and len(b["els"]) == 1:
+                b["form"] = "bare"
+    if rng.random() < 0.3:
+        case["flowform"] = rng.choice(FLOWFORMS[1:])
+    return case
+
+
+MS_SIBLINGS = [{"ty": "seq", "els": [{"k": "var", "name": "x", "f": "neg"}]},
+               {"ty": "seq", "els": [{"k": "var", "name": "x", "f": "neg"}, {"k": "end"}]},
+               {"ty": "seq", "els": [{"k": "filter", "p": "even"}]},
+               {"ty": "seq", "els": []},
+               {"ty": "seq", "els": [{"k": "call", "f": "inc", "form": "lambda"}, {"k": "slice", "args": [1]}]},
+               {"ty": "source", "vals": [100, {"t": [101, {"d": {"a": 1}}]}], "srcform": "list", "els": []},
+               {"ty": "source", "vals": [100, 101, 102], "srcform": "genfun", "els": [{"k": "slice", "args": [2]}]},
+               {"ty": "freq", "els": [SYN_FREQ]},
+               {"ty": "freq", "els": [{"k": "var", "name": "y", "f": "inc"}, {"k": "freq", "a": "sum", "reset": True, "bufsize": 1}]},
+               {"ty": "seq", "els": [{"k": "wrap", "ad": "Run", "el": {"k": "acc", "a": "store", "group": False}}]},
+               {"ty": "seq", "els": [{"k": "junk", "v": "int"}], "form": "bare"}]
+MS_CHAINS = [[{"k": "call", "f": "ident"}, {"k": "acc", "a": "store", "group": False}],
+             [{"k": "filter", "p": "even"}, {"k": "acc", "a": "sum"}],
+             [{"k": "slice", "args": [2]}, {"k": "acc", "a": "store", "group": True}, {"k": "call", "f": "wrap"}]]
+FLOW_D = [{"t": [1, {"d": {"run": 7}}]}, {"t": [2, {"d": {"run": 7}}]}, {"t": [3, {"d": {"run": 8}}]}, 4]
+
+
+def msplit_pattern_cases(thorough):
+    """every sibling type before / after / around an ordinary chain, every bufsize, tagged and untagged"""
+    for sib in MS_SIBLINGS:
+        for chain in MS_CHAINS:
+            for order in (0, 1, 2):
+                for tagged in ((True, False) if thorough or order == 0 else (True,)):
+                    bs = [dict(sib), {"ty": "chain", "els": list(chain)}]
+                    if order == 1:
+                        bs.reverse()
+                    if order == 2:
+                        bs = [dict(sib), {"ty": "chain", "els": list(chain)}, dict(sib)]
+                    if tagged:
+                        bs = [dict(b, els=b["els"] + [tag_spec(i)]) if b.get("form") != "bare" else b
+                              for i, b in enumerate(bs)]
+                    for fl in ((FLOW_D, []) if order != 2 else (FLOW_D,)):
+                        for b in (bufsizes_for(len(fl)) if thorough or order == 0 else [1, 2, len(fl) + 1, None]):
+                            yield {"op": "msplit", "branches": bs, "bufsize": b, "flow": fl}
 
 
 STAGE_FLOWS = [FLOW_A, FLOW_B, [], [2, "s", 4], [13, 13], [{"t": [6, {"d": {"a": 1}}]}, 6, 8, 10, 12, 14, 16]]
@@ -1869,6 +2326,24 @@ def gen_cases(ctx):
                        "flow": fl, "bufsizes": [1, 3, None]}
         for fl in (FLOW_A, flow_n):
             yield {"op": "stage", "el": e, "flow": fl, "term": None}
+    # every form of a callable, and callables implemented in C, as pre- and post-processing elements
+    flow_s = ["12", [3, 1], {"t": [2, 5]}, "-3", 4, {"t": [6, {"d": {"a": 1}}]}, "", {"none": True}]
+    call_els = [{"k": "call", "f": f, "form": form} for form in CALL_FORMS[1:] for f in ("inc", "boom")] + \
+               [{"k": "const", "v": 7, "form": form} for form in CALL_FORMS[1:]] + [{"k": "bcall", "b": b} for b in BCALLS]
+    for e in call_els:
+        for fl in (FLOW_A, flow_s):
+            yield {"op": "chain", "args": [e, ACCS[3]], "flow": fl, "bufsizes": bufsizes_for(len(fl))}
+            yield {"op": "chain", "args": [{"k": "slice", "args": [1, 6]}, e, ACCS[0], e], "flow": fl, "bufsizes": [1, 3, None]}
+            yield {"op": "stage", "el": e, "flow": fl, "term": None}
+            yield {"op": "stage", "el": e, "flow": fl, "term": "Other:ValueError"}
+        yield {"op": "chain", "args": [{"k": "runif", "p": "all", "inner": [e]}, ACCS[3]], "flow": FLOW_A,
+               "bufsizes": [1, 2, None]}
+        yield {"op": "fillseq_init", "args": [e, ACCS[0]]}
+        yield {"op": "split", "branches": [[{"k": "slice", "args": [2]}, ACCS[0]], [e, ACCS[3]]], "bufsize": 2, "flow": FLOW_A}
+        if e["k"] != "bcall":
+            yield {"op": "caps", "spec": e}
+    # a Split whose other branches are of any type (sequence, source, fill_request), before and after the chain
+    yield from msplit_pattern_cases(thorough)
     # the flow handed over as a list / tuple / generator instead of a list iterator
     for ff in FLOWFORMS[1:]:
         for args in ([ACCS[0]], [{"k": "call", "f": "inc"}, ACCS[3]], [{"k": "slice", "args": [2]}, ACCS[0]],
@@ -1966,6 +2441,9 @@ def gen_cases(ctx):
         yield c
         if rng.random() < 0.3:
             yield {"op": "splitfc", "branches": c["branches"], "flow": c["flow"]}
+    n_msplit = 1500 if not thorough else 45000
+    for _ in range(n_msplit):
+        yield gen_msplit_case(rng, rng.random() < 0.9)
     n_stage = 500 if not thorough else 20000
     for _ in range(n_stage):
         yield {"op": "stage", "el": gen_pre_el(rng, rng.random() < 0.9), "flow": gen_flow(rng),
@@ -1978,17 +2456,23 @@ def search_cases(ctx):
 
 # ----------------------------------------------------------------------------------------
 
-def _kinds(spec, out):
+def _kinds(spec, out, fine=True):
+    """fine: with the form of a callable / the name of a C callable (labels); coarse: the kind only (signatures: one
+    failing input is minimised per signature)"""
     k = spec["k"]
     if k == "acc":
         out.append("acc:" + spec["a"])
     elif k == "slice":
         a = spec["args"]
         out.append("slice:" + ("neg" if any(x is not None and x < 0 for x in a) else "islice"))
+    elif fine and k in ("call", "const") and spec.get("form"):
+        out.append(k + ":" + spec["form"])
+    elif fine and k == "bcall":
+        out.append("bcall:" + spec["b"])
     else:
         out.append(k)
     for s in spec.get("inner", []):
-        _kinds(s, out)
+        _kinds(s, out, fine)
 
 
 def nontrivial(case, res):
@@ -1997,7 +2481,7 @@ def nontrivial(case, res):
         return res.get("e") is None
     if op == "chain":
         return len(case["args"]) >= 2 and "r" in res["seq"] and bool(res["seq"]["r"])
-    if op == "split":
+    if op in ("split", "msplit"):
         return "r" in res["split"] and bool(res["split"]["r"])
     if op == "stage":
         return "fill" in res and bool(res["fill"]["got"])
@@ -2027,9 +2511,14 @@ def classify(case, res):
                                     "all-normal" if all(n is True for n in res["normal"]) else "a-branch-stops"))
         return labels
     ks = []
-    for s in (case["args"] if op == "chain" else [s for b in case["branches"] for s in b]):
+    for s in _case_specs(case):
         _kinds(s, ks)
     labels += ["el:" + k for k in sorted(set(ks))]
+    if op == "msplit":
+        labels += ["branch:" + t for t in sorted(set(b["ty"] for b in case["branches"]))]
+        labels.append("msplit-order:" + ",".join(b["ty"][:2] for b in case["branches"][:3]))
+        if not msplit_modelled(case):
+            labels.append("oracle-only")
     if oracle_only(_case_specs(case)):
         labels.append("oracle-only")
     if case.get("flowform"):
@@ -2060,9 +2549,13 @@ def signature(case, failure):
         return f"adapter:{case['adapter']}:{case['el']['k']}:{case.get('name')}:{case.get('name2')}"
     ks = []
     els = (case["args"] if op in ("chain", "fillseq_init") else [case["el"]] if op == "stage"
-           else [s for b in case["branches"] for s in b])
+           else _case_specs(case))
+    if op == "msplit":
+        # the types of the branches and whether the failure is about a chain's values or about an exception
+        what = "raised" if "raised" in str(failure) else "values"
+        return "msplit:" + "/".join(b["ty"] for b in case["branches"]) + ":" + what
     for s in els:
-        _kinds(s, ks)
+        _kinds(s, ks, fine=False)
     return op + ":" + ",".join(ks) + ":" + str(len(case.get("flow", [])))
 
 
@@ -2091,6 +2584,36 @@ def shrink(case):
     elif op == "fillseq_init":
         for i in range(len(case["args"])):
             yield dict(case, args=case["args"][:i] + case["args"][i + 1:])
+    elif op == "msplit":
+        bs = case["branches"]
+        nchain = sum(1 for b in bs if b["ty"] == "chain")
+
+        def retag(bl):
+            """after a branch was dropped the indices change: the tags follow"""
+            out = []
+            for i, b in enumerate(bl):
+                els = [e for e in b["els"] if not (e.get("k") == "var" and str(e.get("name", ""))[:1] == "B"
+                                                   and str(e.get("name"))[1:].isdigit())]
+                if len(els) != len(b["els"]):
+                    els = els + [tag_spec(i)]
+                out.append(dict(b, els=els))
+            return out
+        for i in range(len(bs)):
+            if len(bs) > 1 and (bs[i]["ty"] != "chain" or nchain > 1):
+                yield dict(case, branches=retag(bs[:i] + bs[i + 1:]))
+        for i in range(len(case["flow"])):
+            yield dict(case, flow=case["flow"][:i] + case["flow"][i + 1:])
+        for i, b in enumerate(bs):
+            for j, e in enumerate(b["els"]):
+                if e["k"] != "acc" and e != tag_spec(i):
+                    yield dict(case, branches=bs[:i] + [dict(b, els=b["els"][:j] + b["els"][j + 1:])] + bs[i + 1:])
+            if b["ty"] == "source" and b["vals"]:
+                yield dict(case, branches=bs[:i] + [dict(b, vals=b["vals"][:-1])] + bs[i + 1:])
+            if b.get("form"):
+                yield dict(case, branches=bs[:i] + [{k: v for k, v in b.items() if k != "form"}] + bs[i + 1:])
+        for k in ("flowform",):
+            if k in case:
+                yield {kk: v for kk, v in case.items() if kk != k}
     elif op in ("split", "splitfc"):
         bs = case["branches"]
         for i in range(len(bs)):
@@ -2107,7 +2630,8 @@ def shrink(case):
 # ---- MANIFEST texts ------------------------------------------------------------------------
 LEVEL_TEXT = ("Lean 4 theorems about a transcribed model of the three drivers of a chain pre* acc post* (Sequence.run over "
               "lazily evaluated streams; the _Fill chain of FillSeq/FillComputeSeq filled value by value until LenaStopFill; "
-              "Split.run with fill_compute branches, any bufsize, any number of sibling branches; Split.fill/compute), for "
+              "Split.run with branches of all four types, any bufsize, any number of sibling branches in any order; "
+              "Split.fill/compute), for "
               "ALL chains of callables, Filters, non-negative Slices and stateless flow-breaking Run elements, all "
               "accumulators that are state machines, all post-processing stages, finite flows and bufsizes. Sentence 1 as "
               "written is refuted (three_drivers_agree_full_false: look-ahead value of Slice.fill_into); proved are the "
